@@ -366,8 +366,13 @@ impl<'a> Sim<'a> {
                 );
                 if !fresh {
                     // the SUT has replaced that backtest; forget the harness model of the old one
-                    for b in self.bts.iter_mut().filter(|b| b.id == id) {
-                        b.aliased = true;
+                    for h in 0..self.bts.len() {
+                        if self.bts[h].id != id || self.bts[h].aliased {
+                            continue;
+                        }
+                        // whatever that backtest's exchange still held is gone with it
+                        self.orders_lost_with_backtest(h, "backtest-replaced");
+                        self.bts[h].aliased = true;
                     }
                 }
                 self.known_ids.insert(id);
@@ -414,6 +419,19 @@ impl<'a> Sim<'a> {
         }
     }
 
+    /// C03 "none is lost": a backtest that the server replaces or drops takes its live orders with it.
+    fn orders_lost_with_backtest(&mut self, h: usize, sig: &str) {
+        use crate::e1u_model::St as St;
+        let live: Vec<Option<u64>> = self.trackers[h].recs.iter().filter(|r| matches!(r.status, St::Buffered | St::Resting)).map(|r| r.id).collect();
+        if !live.is_empty() {
+            let id = self.bts[h].id;
+            self.ctx.fail(
+                "C03", "lost-order", sig,
+                format!("backtest {id} no longer exists on the server (or was replaced by a new one with the same id) while {} of its orders were neither filled nor cancelled (ids {:?}; None = not yet admitted)", live.len(), live),
+            );
+        }
+    }
+
     /// Common handling of a request aimed at a backtest id the server does not know.
     /// A request aimed at a backtest the harness created but the server no longer knows.
     fn vanished(&mut self, bt: u64, what: &str) -> bool {
@@ -423,6 +441,7 @@ impl<'a> Sim<'a> {
                 let msg = format!("backtest {bt} was created and ticked {k} times, but the server no longer knows it ({what} is answered as for an unknown backtest)");
                 self.ctx.fail("C07", "backtest-vanished", what, msg.clone());
                 self.ctx.fail("C08", "backtest-vanished", what, msg);
+                self.orders_lost_with_backtest(h, "backtest-vanished");
                 self.bts[h].aliased = true;
                 return true;
             }
